@@ -5,7 +5,7 @@ from e3 import pred_set, Uninterpretable
 from facts import BrokenCheck
 import xmlchars
 
-LEVEL = "proof"
+LEVEL = "other"
 
 
 def witness(diff):
